@@ -659,4 +659,43 @@ example : AcctEx.w0.mkt.registry = some AcctEx.w0.regAddr := rfl
 #print axioms sound_o02t
 #print axioms sound_oIdx_fault
 
+/-! ### `o13r` (C13: a recorded fee keeps its denomination) is a consequence of `o10m` -/
+
+theorem o13r_of_o10m (cur : World) (op : Op) (codes : List (List Nat))
+    (h : oracle10m cur op codes = true) : oracle13r cur op codes = true := by
+  unfold oracle13r
+  have he : oracle10m cur op codes =
+      (match expectPool13 cur op with
+       | some e => poolCodes codes == sortCodes e
+       | none => true) := by
+    unfold oracle10m expectPool13; rfl
+  rw [he] at h
+  split
+  · next e heq =>
+    rw [heq] at h
+    simp only [beq_iff_eq] at h ⊢
+    rw [h]
+  · rfl
+
+
+/-- `o13r` never fires on a model step (consequence of `sound_o10m`): the pool messages of every
+    accepted transaction carry the denomination of the fee that was recorded, not the one in force -/
+theorem sound_o13r (w : World) (op : Op) (hI : IdsInv w.mkt) (hok : (step w op).2.ok = true) :
+    oracle13r w op (sortCodes ((step w op).2.msgs.map (fun m => implMsgCode (.msg m)))) = true :=
+  o13r_of_o10m _ _ _ (sound_o10m w op hI hok)
+
+theorem sound_o13r_impl (w : World) (op : Op) (hI : IdsInv w.mkt) (hok : (step w op).2.ok = true) :
+    oracle13r w op (sortCodes (((step w op).2.msgs.map toImpl).map implMsgCode)) = true :=
+  o13r_of_o10m _ _ _ (sound_o10m_impl w op hI hok)
+
+/-- `o13r` separates: the sample withdrawal's recorded fee (5 of denomination 1) paid in another
+    denomination is flagged; the same fee with a wrong amount is not (that is `o10m`'s business) -/
+example : oracle13r OrcEx.wWd OrcEx.opWd [[4, 100, 2, 5]] = false ∧
+    oracle13r OrcEx.wWd OrcEx.opWd [[4, 100, 1, 6]] = true := by
+  have h : expectPool13 OrcEx.wWd OrcEx.opWd = some [[4, 100, 1, 5]] := by decide
+  simp [oracle13r, h, sortCodes, List.mergeSort_singleton, poolCodes, codeDenom]
+
+#print axioms sound_o13r
+#print axioms sound_o13r_impl
+
 end Fuzion
